@@ -32,6 +32,7 @@ def dispatch (op : String) (cfg inp outp : List String) : Verdict :=
   | "routecmp" => Route.handle cfg inp outp
   | "conv" => Conv.handle cfg inp outp
   | "curve" => Transfer.handle cfg inp outp
+  | "stdcurve" => Transfer.handleStd cfg inp outp
   | "lutenc" | "lutdec" | "lutenc16" | "lutdec16" => Lut.handle op cfg inp outp
   | "ser" | "shape" | "de" | "arr" | "arrde" | "uint" | "uintde" | "maxint" | "desc" | "ntypes" => Serde.handle op cfg inp outp
   | "cast" | "c04fields" | "c04layout" => Cast.handle op cfg inp outp
